@@ -20,6 +20,8 @@ func checkC13(c *Ctx, r *Report) {
 	checkTwoPass(c, r, rows)
 	checkQRCapacities(c, r, rows)
 	checkDMLookup(c, r)
+	// the symbol is looked up for lengths the mode encoders estimate: the Base 256 estimate is decided with its length field
+	checkDMBase256(c, r)
 	r.Note("not decided: that calculateBitsNeeded equals the number of bits the segment encoders later emit (loop arithmetic over the payload)")
 }
 
